@@ -1,14 +1,23 @@
 """C13 — copies are independent, links share what they advertise, pickles round-trip.
 Correspondence harness (real tmo.Stream / tmo.MultiStream object graphs vs the heap model of
 coq/C13/Model.v), generators and the direct oracle."""
-import pickle, warnings, signal, functools
+import pickle, warnings, signal, functools, os, sys
 import numpy as np
 from fractions import Fraction as F
+import vf
 from vf import q, qlist, clist, cbool, cnat, copt, frac, fr_json
+sys.path.insert(0, os.path.join(vf.VERIF, 'tr'))
 
 ID = 'C13'
 COQ_DIR = 'C13'
-COQ_HEADER = 'From V Require Import Common.Num C13.Model C13.ModelViews.\nOpen Scope Q_scope.'
+COQ_HEADER = 'From V Require Import Common.Num C13.Model C13.ModelViews C13.ModelPickle.\nOpen Scope Q_scope.'
+MODEL_FILES = ('Model.v', 'ModelViews.v', 'ModelPickle.v')
+
+def translate():
+    """utils/pickle.py (cucumber) and the slot protocol of Thermo / IdealThermo -> coq/C13/Gen_pickle.v"""
+    import importlib
+    return [importlib.import_module('C13_pickle').run(vf.REPO, os.path.join(vf.COQ, COQ_DIR))]
+
 RULE = ('histories of 3-10 operations (copy, copy_like, copy_thermal_condition, copy_phase, flow_proxy, proxy, link_with with '
         'every flag subset, unlink, set flow entry / T / P / phase / phases, scale, empty, in-process __reduce__->from_data) over a '
         'store of 2-4 real Stream/MultiStream objects (single phase, multi-phase incl. one-phase MultiStreams and upper-case '
@@ -271,7 +280,167 @@ def gen_cases(rng, tier):
     n = 220 if tier == 'quick' else 3500
     m = 80 if tier == 'quick' else 1200
     return ([gen_case(rng) for _ in range(n)] + targeted_cases(rng, m) + view_cases(rng, m)
-            + memo_cases(rng, m // 2) + order_cases(rng, m // 2) + subview_cases(rng, m + m // 2))
+            + memo_cases(rng, m // 2) + order_cases(rng, m // 2) + subview_cases(rng, m + m // 2)
+            + pickle_cases(rng, m // 2))
+
+# ------------------------------------------------------------------ pickles of property packages (model: coq/C13/ModelPickle.v)
+GAMMA = {'DortmundActivityCoefficients': 20, 'IdealFugacityCoefficients': 21, 'MockPoyintingCorrectionFactors': 22,
+         'IdealActivityCoefficients': 23}
+POPS = ['new', 'ideal', 'ideal', 'pickle', 'pickle', 'pickle', 'reduce', 'enter']
+
+def pickle_cases(rng, n):
+    """histories over a store of property packages: build a Thermo (either package, two activity-coefficient classes), ask for
+    its ideal package (creates / returns the cached IdealThermo), pickle round trips and in-process reduce of packages with and
+    without a cached ideal package, of ideal packages and of earlier round-trip results, __enter__"""
+    cases = []
+    for _ in range(n):
+        ops = [['new', rng.randrange(2), rng.choice([20, 20, 23])]]
+        for _ in range(rng.randint(2, 8)):
+            o = rng.choice(POPS)
+            ops.append(['new', rng.randrange(2), rng.choice([20, 20, 23])] if o == 'new' else [o, rng.randrange(64)])
+        cases.append({'pops': ops})
+    return cases
+
+def p_is_obj(v):
+    return type(v).__name__ in ('Thermo', 'IdealThermo') and type(v).__module__ == 'thermosteam._thermo'
+
+def p_all_slots(o):
+    out = []
+    for c in type(o).__mro__[:-1]:
+        sl = c.__dict__.get('__slots__', ())
+        out += [sl] if isinstance(sl, str) else list(sl)
+    return out
+
+def p_slot(o, name):
+    """('unset',) | ('none',) | ('atom', code) | ('ref', object)"""
+    try:
+        v = object.__getattribute__(o, name)
+    except AttributeError:
+        return ('unset',)
+    if v is None: return ('none',)
+    if p_is_obj(v): return ('ref', v)
+    th = env()['thermo']
+    if type(v).__name__ in ('CompiledChemicals', 'Chemicals'):
+        cas = tuple(v.CASs)
+        return ('atom', next((k for k, x in enumerate(th) if tuple(x.chemicals.CASs) == cas), 9))
+    if type(v).__name__ == 'IdealMixture': return ('atom', 10)
+    if isinstance(v, type) and v.__name__ in GAMMA: return ('atom', GAMMA[v.__name__])
+    return ('atom', 99)
+
+def p_snapshot(roots):
+    """canonical observation of the object graph below the roots: objects numbered in the order they are first reached (roots in
+    order, then the references of every visited object in slot order); per object the class and EVERY slot of the class"""
+    vis = []
+    def add(o):
+        if not any(o is x for x in vis): vis.append(o)
+    for r in roots: add(r)
+    k = 0
+    while k < len(vis):
+        for nm in p_all_slots(vis[k]):
+            v = p_slot(vis[k], nm)
+            if v[0] == 'ref': add(v[1])
+        k += 1
+    num = lambda o: next(j for j, x in enumerate(vis) if x is o)
+    rows = []
+    for o in vis:
+        row = []
+        for nm in p_all_slots(o):
+            v = p_slot(o, nm)
+            row.append([nm] + ([v[0], num(v[1])] if v[0] == 'ref' else list(v)))
+        rows.append([0 if type(o).__name__ == 'Thermo' else 1, row])
+    return [num(r) for r in roots], rows
+
+def p_apply(store, rop):
+    tmo = env()['tmo']; name = rop[0]
+    if name == 'new':
+        cs = env()['chems']
+        G = {20: tmo.equilibrium.DortmundActivityCoefficients, 23: tmo.equilibrium.IdealActivityCoefficients}[rop[2]]
+        return tmo.Thermo(tmo.Chemicals([cs[i] for i in PKGS[rop[1]]]), Gamma=G)
+    o = store[rop[1]]
+    if name == 'ideal': return o.ideal()
+    if name == 'pickle': return pickle.loads(pickle.dumps(o))
+    if name == 'reduce':
+        f, args = o.__reduce__(); return f(*args)
+    if name == 'enter':
+        o.__enter__(); return None
+    raise ValueError(name)
+
+def p_resolve(store, op):
+    return list(op) if op[0] == 'new' else [op[0], op[1] % len(store)]
+
+def run_impl_pickle(case):
+    tmo = env()['tmo']; tmo.settings.set_thermo(env()['thermo'][0])
+    store = []; out = {'ops': [], 'res': []}
+    for op in case['pops']:
+        rop = p_resolve(store, op); out['ops'].append(rop)
+        try:
+            r = p_apply(store, rop); out['res'].append('ok')
+            if r is not None: store.append(r)
+        except Exception as ex:
+            if is_timeout(ex): raise
+            out['res'].append(ERR.get(type(ex).__name__, 'EOther'))
+            out.setdefault('errors', []).append(type(ex).__name__)
+    tmo.settings.set_thermo(env()['thermo'][0])
+    out['labels'], out['rows'] = p_snapshot(store)
+    out['final'] = []
+    return out
+
+def cpop(o):
+    if o[0] == 'new': return f'(PNew {cnat(o[1])} 10 {cnat(o[2])} 21 22)'
+    return '(%s %s)' % ({'ideal': 'PIdeal', 'pickle': 'PPickle', 'reduce': 'PReduce', 'enter': 'PEnter'}[o[0]], cnat(o[1]))
+
+def csval(v):
+    k = v[1]
+    if k == 'unset': return 'None'
+    if k == 'none': return '(Some SvNone)'
+    if k == 'atom': return f'(Some (SvAtom {cnat(v[2])}))'
+    return f'(Some (SvRef {cnat(v[2])}))'
+
+def coq_case_pickle(case, out):
+    rows = clist([f'({cnat(c)}, {clist(r, csval)})' for c, r in out['rows']])
+    return f'(prun_eqb {clist(out["ops"], cpop)} {clist([cerr(r) for r in out["res"]])} {clist(out["labels"], cnat)} {rows})'
+
+def p_roundtrip_msg(o, what):
+    """the property on one object: the unpickled object has the same class and the same state of EVERY slot (set or not, value,
+    sharing below it), and its ideal package can be asked for exactly as the original's"""
+    try:
+        o2 = pickle.loads(pickle.dumps(o)); o3 = pickle.loads(pickle.dumps(o))
+    except Exception as ex:
+        if is_timeout(ex): raise
+        return f'pickle: {what}: round trip raised {type(ex).__name__}'
+    a, b = p_snapshot([o]), p_snapshot([o2])
+    if a != b:
+        diff = [f'{x[0]} {x[1:]} -> {y[1:]}' for (_, ra), (_, rb) in zip(a[1], b[1]) for x, y in zip(ra, rb) if x != y] or ['object graph differs']
+        return f'pickle: {what}: slot state differs after round trip ({"; ".join(diff[:3])})'
+    try:
+        i3 = o3.ideal()
+    except Exception as ex:
+        if is_timeout(ex): raise
+        return f'pickle: {what}: ideal() of the unpickled object raises {type(ex).__name__}: {ex}'
+    if type(i3).__name__ != 'IdealThermo' or i3.chemicals is not o3.chemicals or i3.mixture is not o3.mixture or o3.ideal() is not i3:
+        return f'pickle: {what}: ideal() of the unpickled object is not the ideal package over its own chemicals and mixture'
+    return None
+
+def oracle_pickle(case):
+    tmo = env()['tmo']; tmo.settings.set_thermo(env()['thermo'][0])
+    store = []
+    for op in case['pops']:
+        rop = p_resolve(store, op)
+        if rop[0] == 'pickle':
+            m = p_roundtrip_msg(store[rop[1]], f'{type(store[rop[1]]).__name__} (store entry {rop[1]})')
+            if m: return m
+        try:
+            r = p_apply(store, rop)
+            if r is not None: store.append(r)
+        except Exception as ex:
+            if is_timeout(ex): raise
+            if rop[0] != 'enter': return f'pickle: operation {rop[0]} on a property package raised {type(ex).__name__}: {ex}'
+    tmo.settings.set_thermo(env()['thermo'][0])
+    for k, o in enumerate(store):
+        m = p_roundtrip_msg(o, f'{type(o).__name__} (store entry {k})')
+        if m: return m
+    return None
+
 
 # ------------------------------------------------------------------ per-phase views ms[phase] (model: coq/C13/ModelViews.v)
 VIEW_KEYS = ['g', 'l', 'l', 's', 'L', 'S']
@@ -751,6 +920,8 @@ def aux_pickles(rx):
                 and type(t2.Gamma) is type(t.Gamma) and type(t2.Phi) is type(t.Phi) and type(t2.PCF) is type(t.PCF)
                 and [c.MW for c in t2.chemicals] == [c.MW for c in t.chemicals]):
             msgs.append('pickle: Thermo state differs after round-trip')
+        m = p_roundtrip_msg(t, 'Thermo') or p_roundtrip_msg(t.ideal(), 'IdealThermo')
+        if m: msgs.append(m)
     # every name a chemical can be addressed by before pickling still addresses it afterwards
     ath = e['alias_thermo']; names = e['alias_names']
     for c in ath.chemicals:
@@ -760,6 +931,8 @@ def aux_pickles(rx):
     a2 = pickle.loads(pickle.dumps(ath))
     st = tmo.Stream(None, Eta=rx['a'], Phi=rx['b'], Phi0=rx['X'], thermo=ath)
     st2 = pickle.loads(pickle.dumps(st))
+    if p_snapshot([st2._thermo]) != p_snapshot([st._thermo]):
+        msgs.append('pickle: the property package travelling with a pickled Stream has a different slot state after the round trip')
     for cid, als in names.items():
         for nm in [cid] + als:
             for what, obj, ref in (('Thermo', lambda: a2.chemicals[nm].ID, cid),
@@ -777,6 +950,7 @@ def aux_pickles(rx):
 def run_impl(case):
     env()
     if 'vops' in case: return run_impl_views(case)
+    if 'pops' in case: return run_impl_pickle(case)
     out = {'new': [], 'ops': [], 'res': []}
     store = []; del _reads[:]
     for spec in case['streams']:
@@ -886,6 +1060,7 @@ def model_ops(case, out):
     return clist(news + [cop(o) for o in out['ops']])
 
 def coq_case(case, out):
+    if 'pops' in case: return coq_case_pickle(case, out)
     if any(not v['cls_ok'] or not v['thermo_ok'] or v['pkg'] < 0 for v in out['final']):
         raise ValueError('object outside the model: class/indexer or package mismatch')
     res = clist([cerr(r) for r in out['new'] + out['res']])
@@ -900,10 +1075,12 @@ def coq_case(case, out):
     return f'(run_eqb {model_ops(case, out)} {res} {final} {mass} {keyed} {mph} {qlist(out["H"])} {qlist(out["reads"])} && {cbool(side)})'
 
 def coq_show(case, out):
+    if 'pops' in case: return f'(prun_show {clist(out["ops"], cpop)})'
     if 'vops' in case: return f'(vrun_show {model_vops(case, out)})'
     return f'(run_show {model_ops(case, out)})'
 
 def nontrivial(case, out):
+    if 'pops' in case: return any(o[0] in ('pickle', 'reduce') and r == 'ok' for o, r in zip(out.get('ops', []), out.get('res', [])))
     if 'final' not in out or not any(r == 'ok' for r in out.get('res', [])): return False
     labs = [l for v in out['final'] for l in v['labels']]
     shared = any(l != k for k, l in enumerate(labs))
@@ -912,6 +1089,8 @@ def nontrivial(case, out):
 
 def classify(case, out):
     ks = []
+    if 'pops' in case:
+        return ['family:pickle-slots'] + [f'pop:{o[0]}:{"ok" if r == "ok" else r}' for o, r in zip(out.get('ops', []), out.get('res', []))]
     for o, r in zip(out.get('ops', []), out.get('res', [])):
         ks.append(f'op:{o[0]}:{"ok" if r == "ok" else r}')
         if o[0] == 'copy_like' and 'final' in out:
@@ -1021,6 +1200,7 @@ def h_check(store, k, name):
 def oracle(case):
     env()
     if 'vops' in case: return oracle_views(case)
+    if 'pops' in case: return oracle_pickle(case)
     store = []
     for spec in case['streams']:
         try:
